@@ -498,6 +498,10 @@ def check(ctx):
     ok, path = ecfg.must_pass([ecfg.entry], lambda m_: m_ in dec, exits=("exit",), skip_edge=ecfg.assume_edges([(a_, False) for a_ in ended_attr]))
     ctx.ob("R6", f"{PL}:CommandPipeline.end", f"every normal path of a first end() (not `{'/'.join(sorted(ended_attr))}`) passes _raise_subproc_error()", ok, key="end|raise-decision-skipped", where=loc(endf), path=ecfg.fmt_path(path) if path else None)
     _lastcmd_is_the_statements_pipeline(ctx)
+    # the exit code the chain's truthiness reads is the one the reaper recorded (shared with C06.R9)
+    from .c06 import _reaper_records
+
+    _reaper_records(ctx, "R5")
 
 
 
